@@ -19,6 +19,10 @@ def run_lines(build, tool, args, lines, flavour="san", env_extra=None, timeout=N
         timeout = 30 + len(lines) / 2000.0
     r = tools.run(argv, stdin=data, env=tools.base_env(build, flavour, env_extra),
                   cap=max(1 << 20, len(data) * 64 + 400 * len(lines)), timeout=timeout)
+    if r.timed_out and not r.crashed:
+        # a loaded machine is not a defect: once more with a wide margin before it counts
+        r = tools.run(argv, stdin=data, env=tools.base_env(build, flavour, env_extra),
+                      cap=max(1 << 20, len(data) * 64 + 400 * len(lines)), timeout=timeout * 6)
     if r.crashed or r.timed_out or r.overflowed:
         raise BatchError("crash/timeout/overflow", r)
     out = r.out.decode("utf-8", "surrogateescape").split("\n")
